@@ -241,7 +241,13 @@ func (s Script) Run(callTimeout time.Duration) *Outcome {
 			must = len(o.Model)
 		}
 		snap(len(s.Ops), "flush+wait", must)
-		return finish()
+		res := finish()
+		// the observation is complete; close the writer so that its goroutines
+		// and buffers do not pile up over a long run (the sink forgets the rest)
+		rw.Mute()
+		call("cleanup Close", func() { w.Close() })
+		res.Hung = ""
+		return res
 	}
 	var cerr error
 	if !call("Close", func() { cerr = w.Close() }) {
